@@ -5,11 +5,11 @@ V='/verif'
 claims=json.load(open(V+'/claims.json'))
 props=[json.loads(l) for l in open(V+'/properties.jsonl')]
 out=[open(V+'/doc/design_head.md').read()]
-out.append('| id | property | status |\n|---|---|---|\n')
+out.append('| id | property | status | scope of the claim |\n|---|---|---|---|\n')
 for p in props:
     c=claims.get(p['id'],{})
     st='**claimed**' if c.get('claimed') else 'not applicable'
-    out.append('| %s | %s | %s |\n'%(p['id'],p['title'],st))
+    out.append('| %s | %s | %s | %s |\n'%(p['id'],p['title'],st,c.get('scope','') if c.get('claimed') else ''))
 out.append(open(V+'/doc/design_mid.md').read())
 out.append('\n## 4. Claimed properties: what is proved, what is assumed, what is not covered\n\n')
 for p in props:
